@@ -406,7 +406,11 @@ pub fn run(part: &mut Part) {
                 vec![prof("seeds x (A_write + Persist + XL)", seeds, alpha, if q { 1 } else { 2 })]
             };
             let mut cfgs = vec![];
-            for policy in [PolicyCfg::DoNothing, PolicyCfg::DelayNeverFlush, PolicyCfg::DelayExpiredFsync, PolicyCfg::AlwaysFlush, PolicyCfg::AlwaysFsync, PolicyCfg::DelayAltFlush] {
+            let mut policies = vec![PolicyCfg::DoNothing, PolicyCfg::DelayNeverFlush, PolicyCfg::DelayExpiredFsync, PolicyCfg::AlwaysFlush, PolicyCfg::AlwaysFsync, PolicyCfg::DelayAltFlush];
+            if !q {
+                policies.extend([PolicyCfg::DelayNeverFsync, PolicyCfg::DelayExpiredFlush, PolicyCfg::DelayAltFlush1]);
+            }
+            for policy in policies {
                 for power_loss in [false, true] {
                     cfgs.push(CrashCfg {
                         property: "C03",
@@ -422,7 +426,7 @@ pub fn run(part: &mut Part) {
                 }
             }
             run_crash(part, profiles, cfgs);
-            part.rule = "6 policy configurations x 2 loss models x every history of the bound (explicit persist ops and a roll-over append in the alphabet) x every crash point inside the last op; process crash: image = what reached the OS; power loss: image = durable prefix of directory ops x per-file prefix of unsynced effects; oracle: recovered state is S_j (or a partial truncate/delete of S_j) for some j >= the last persisted point. distinct_nontrivial = distinct (persisted point, crashed op, policy, matched state)".into();
+            part.rule = "6 (thorough: 9) policy configurations x 2 loss models x every history of the bound (explicit persist ops and a roll-over append in the alphabet) x every crash point inside the last op; process crash: image = what reached the OS; power loss: image = durable prefix of directory ops x per-file prefix of unsynced effects; oracle: recovered state is S_j (or a partial truncate/delete of S_j) for some j >= the last persisted point. distinct_nontrivial = distinct (persisted point, crashed op, policy, matched state)".into();
             part.assumptions.push("power-loss model: file data durable up to its last fdatasync, unsynced effects survive as any prefix per file; directory operations durable as a prefix after the last directory fsync".into());
         }
         "C12" => {
